@@ -116,6 +116,7 @@ func hWalM(maxRecs int, afterOp bool, mode int, base uint64) {
 		return
 	}
 	checkReads(db3, r, "WAL.clean-reopen")
+	vCheckLogInvariant(db3, "WAL.clean-reopen")
 	vCover("WAL.done")
 }
 
